@@ -22,7 +22,7 @@ import ast
 from hpstatic.interp import Interp
 from hpstatic.logic import eval3
 from hpstatic.loader import AnalysisError
-from hpstatic.terms import sym, atoms_of, show, subterms, NONE, calls_in, intern
+from hpstatic.terms import sym, atoms_of, show, subterms, NONE, calls_in, intern, num
 from .common import (HPO, THEORY, exported_classes, init_of, init_params,
                      param_defaults, final_self, code_varnames,
                      self_attr_stores, const_keys, const_list)
@@ -226,21 +226,92 @@ def r3_saver_filter(check, prog):
             'an explicit None whose default is not None is emitted', loc,
             fail_detail='with value None and a non-None constructor default the '
             'guard evaluates to %r: the argument reloads as the default' % (b,))
+    # what is iterated, what is emitted, and the defaults table the filter uses
+    q = HPO + '._iteritems'
+    me = sym('self')
+    init = intern(('attr', me, '__init__'))
+    code = intern(('attr', init, '__code__'))
+    names = intern(('idx', ('attr', code, 'co_varnames'), ('slice', num(1), NONE, NONE)))
+    lps = [l for l in it.loops.values() if l['func'] == q]
+    ok = len(lps) == 1 and lps[0]['iter'] == names
+    check.require(ok, 'R3-saver-iterates-arguments', 'HoloPyObject._iteritems',
+                  'every name of __init__.__code__.co_varnames after self is considered',
+                  loc, fail_detail='iterates over %s' % [show(l['iter'])[:80]
+                                                         for l in lps])
+    for y in ys:
+        v = y['value']
+        ok = v[0] == 'tuple' and len(v[1]) == 2 and v[1][0][0] == 'elem' and \
+            v[1][0][1] == names
+        if ok:
+            var = v[1][0]
+            g = intern(('call', 'getattr', (me, var), ()))
+            val = v[1][1]
+            leaves = set()
+
+            def walk(t):
+                if t[0] == 'ite':
+                    walk(t[2])
+                    walk(t[3])
+                else:
+                    leaves.add(t)
+            walk(val)
+            ok = leaves <= {g, intern(('call', 'list', (g,), ()))} and g in leaves
+        check.require(ok, 'R3-saver-emits-attribute', 'HoloPyObject._iteritems',
+                      'the value emitted for an argument name is the attribute of that '
+                      'name (1-d arrays as lists)', loc,
+                      fail_detail='emits %s' % show(v)[:160])
+        # defaults table: positional names and __defaults__ aligned from the right,
+        # keyword-only defaults merged in
+        tabs = [x for t, p in y['cond'] for x in subterms(t)
+                if x[0] == 'call' and isinstance(x[1], tuple) and x[1][0] == 'attr' and
+                x[1][2] == 'get' and len(x[2]) >= 1 and x[2][0] == v[1][0]] if ok else []
+        okt = len(tabs) >= 1
+        if okt:
+            tab = tabs[0][1][1]
+            rev = ('slice', NONE, NONE, num(-1))
+            pos = intern(('idx', ('idx', ('attr', code, 'co_varnames'),
+                                  ('slice', NONE, ('attr', code, 'co_argcount'), NONE)),
+                          rev))
+            dfl = intern(('idx', ('bool', 'or', (('attr', init, '__defaults__'),
+                                                 ('tuple', ()))), rev))
+            base = intern(('call', 'dict', (('call', 'zip', (pos, dfl), ()),), ()))
+            kwd = intern(('bool', 'or', (('attr', init, '__kwdefaults__'),
+                                         ('dict', ()))))
+            okt = tab == ('mut', base, 'update', (kwd,), ())
+        check.require(okt, 'R3-defaults-table', 'HoloPyObject._iteritems',
+                      'defaults = positional names paired with __defaults__ from the '
+                      'right, plus __kwdefaults__ (Python\'s own alignment)', loc,
+                      fail_detail='table is %s' % (show(tabs[0][1][1])[:200] if tabs
+                                                   else None))
     # to_yaml writes every pair of _iteritems; from_yaml = cls(**fields), deep
     q = HPO + '.to_yaml'
     it = Interp(prog, max_depth=2, opaque=[HPO + '._iteritems'])
     res = it.analyze(q)
     fd = prog.func(q)
-    src = ast.unparse(fd)
-    loops = [n for n in ast.walk(fd) if isinstance(n, ast.For)
-             and '_iteritems' in ast.unparse(n.iter)]
-    okw = False
-    for lp in loops:
-        body = ast.unparse(lp)
-        okw = 'represent_data' in body and '.append' in body
-    check.require(bool(loops) and okw, 'R4-writer-emits-all-items',
+    data_ = sym(fd.args.args[2].arg)
+    dumper_ = sym(fd.args.args[1].arg)
+    items = intern(('call', ('attr', data_, '_iteritems'), (), ()))
+    apps = [e for e in it.effects if e['kind'] == 'mutcall' and e['method'] == 'append']
+    okw = len(apps) == 1 and len(apps[0]['args']) == 1
+    if okw:
+        pair = apps[0]['args'][0]
+        okw = pair[0] == 'tuple' and len(pair[1]) == 2 and all(
+            x[0] == 'call' and x[1] == ('attr', dumper_, 'represent_data') and
+            len(x[2]) == 1 and x[2][0][0] == 'idx' and x[2][0][1][0] == 'elem' and
+            x[2][0][1][1] == items for x in pair[1]) and \
+            pair[1][0][2][0][2] == num(0) and pair[1][1][2][0][2] == num(1)
+    v = res.ret
+    okn = v[0] == 'call' and v[1] == 'yaml.nodes.MappingNode' and len(v[2]) == 2 and \
+        v[2][1] == ('list', ()) and v[2][0][0] == 'call' and \
+        isinstance(v[2][0][1], tuple) and v[2][0][1][2] == 'format' and \
+        v[2][0][1][1] == ('const', '!{0}') and \
+        v[2][0][2] == (('attr', ('attr', data_, '__class__'), '__name__'),)
+    check.require(okw and okn, 'R4-writer-emits-all-items',
                   'HoloPyObject.to_yaml',
-                  'one (key, value) node per item of _iteritems', prog.loc(q, fd))
+                  "a mapping node tagged '!<class name>' holding one (key node, value "
+                  'node) pair per item of _iteritems', prog.loc(q, fd),
+                  fail_detail='returns %s; appends %s' % (
+                      show(v)[:100], [show(a)[:120] for e in apps for a in e['args']]))
     q = HPO + '.from_yaml'
     it = Interp(prog, max_depth=2)
     res = it.analyze(q)
@@ -417,6 +488,72 @@ def r5_model(check, prog):
             k = e['value'][1][0]
             if k[0] == 'const':
                 written.add(k[1])
+    # each key is written from the attribute of the same name
+    for e in wit.effects:
+        if e['kind'] == 'yield' and e['value'][0] == 'tuple' and \
+                e['value'][1][0][0] == 'const':
+            k = e['value'][1][0][1]
+            attr = intern(('attr', sym('self'), k))
+            leaves = set()
+
+            def walk(t):
+                if t[0] == 'ite':
+                    walk(t[2])
+                    walk(t[3])
+                else:
+                    leaves.add(t)
+            walk(e['value'][1][1])
+            okv = attr in leaves and leaves <= {attr, intern(('call', 'list', (attr,), ()))}
+            check.require(okv, 'R5-model-keys', 'Model._iteritems value of ' + k,
+                          'the value written under %r is self.%s' % (k, k),
+                          prog.loc(wq, prog.func(wq)),
+                          fail_detail='writes %s' % show(e['value'][1][1])[:120])
+    # how from_yaml uses what it reads
+    fterm = None
+    for x in subterms(intern(('tuple', tuple(allterms)))):
+        if x[0] == 'call' and isinstance(x[1], tuple) and x[1][0] == 'attr' and \
+                x[1][2] == 'construct_mapping':
+            fterm = x
+
+    def F(k):
+        return intern(('idx', fterm, ('const', k)))
+    okf = fterm is not None
+    detail = ''
+    if okf:
+        rm = 'holopy.core.mapping.read_map'
+        scat = intern(('call', ('attr', F('_dummy_scatterer'), 'from_parameters'), (
+            ('call', rm, (('idx', F('_maps'), ('const', 'scatterer')), F('_parameters')),
+             ()),), ()))
+        ctor = [c for c in it.calls if dict(c['kwargs']).get('**') is not None and
+                c['name'] in (MODEL, 'cls')]
+        okf = len(ctor) == 1
+        if okf:
+            t = dict(ctor[0]['kwargs'])['**']
+            upds = []
+            while t[0] == 'mut' and t[2] == 'update':
+                upds.append(t[3][0])
+                t = t[1]
+            okf = t[0] == 'dict' and dict((k[1], x) for k, x in t[1]) == {
+                'scatterer': scat, 'theory': F('theory')} and \
+                sorted(show(u) for u in upds) == sorted(show(intern(
+                    ('call', rm, (('idx', F('_maps'), ('const', k)), F('_parameters')),
+                     ()))) for k in ('optics', 'model'))
+            detail = 'constructor keywords %s updated with %s' % (
+                show(t)[:160], [show(u)[:80] for u in upds])
+    check.require(okf, 'R5-model-rebuild', 'Model.from_yaml constructor call',
+                  'scatterer = saved dummy scatterer rebuilt from read_map(maps'
+                  '[scatterer], parameters); theory = the saved theory; the optics and '
+                  'model maps are read with the saved parameters and passed as keywords',
+                  loc, fail_detail=detail)
+    nm = [e for e in it.effects if e['kind'] == 'setattr' and
+          e['attr'] == '_parameter_names']
+    okn = fterm is not None and len(nm) == 1 and nm[0]['value'] == F('_parameter_names') \
+        and len(nm[0]['cond']) == 1 and nm[0]['cond'][0][1] is True and \
+        nm[0]['cond'][0][0][0] == 'cmp' and nm[0]['cond'][0][0][1] == '==' and \
+        F('_parameters') in (nm[0]['cond'][0][0][2], nm[0]['cond'][0][0][3])
+    check.require(okn, 'R5-model-rebuild', 'Model.from_yaml parameter names',
+                  'the saved names (ties, renames) are restored when the rebuilt '
+                  'model has the saved parameters', loc)
     check.floor('keys written by Model._iteritems', len(written), 5)
     check.floor('keys read by Model.from_yaml', len(fields_reads), 4)
     for k in sorted(fields_reads):
